@@ -9,7 +9,7 @@ from core import err_kind
 
 ID = "C14"
 MODEL_OP = "resampled / reordered / compound"
-RULE = ("inner WCS from the exact probe family (separable / coupled), FITS (separable, celestial, rotated) and gWCS "
+RULE = ("inner WCS from the exact probe family (separable / coupled / more or fewer world than pixel axes), FITS (separable, celestial, rotated, celestial with one pixel axis sliced away) and gWCS "
         "tables, 1-4 dims; resampling: integer and fractional factors, scalar or per-axis, offsets, wrong lengths; "
         "reordering: every pixel and world permutation for <= 3 axes (sampled for 4), non-permutations; compound: 2-3 "
         "members with mappings that share, duplicate or separate pixel axes, wrong lengths, disagreeing shapes, "
@@ -50,6 +50,9 @@ def generate(rng, tier):
         case = {"kind": kind, "shape": shape, "fam": rng.choice(fams), "wseed": rng.randrange(10**6),
                 "with_shape": rng.random() < 0.8, "pixels": gen_pixels(rng, nd, shape),
                 "input_form": rng.choice(["scalar", "1d", "nd"])}
+        if kind != "compound" and rng.random() < 0.3:
+            # inner WCS whose pixel and world counts differ (already-wrapped / non-square families)
+            case["fam"] = rng.choice(["probe_extra", "probe_drop", "fits_sliced"])
         if kind == "resampled":
             fchoices = [1, 2, 3, 0.5, 2.5, 4, 1.5]
             if rng.random() < 0.25:
